@@ -34,29 +34,43 @@ void slice_case(Ctx &c, Block &b, int ai) {
             s.start.push_back(p); s.end.push_back(q); s.factor.push_back(f); if (use_units) s.units.push_back(u);
         }
         if (use_units && r.chance(0.3)) { s.units.clear(); for (size_t d = 0; d < given; d++) { s.factor[d] = 1.0; } }   // units omitted: taken from the dimensions
+        // start and end vectors of different length: the last given dimension has only a start (it runs to the last coordinate) or only an
+        // end (it runs from the first coordinate). The entry that WAS given must still be honoured.
+        int half = 0; std::vector<double> vstart = s.start, vend = s.end;
+        if (given >= 1 && !reversed && !use_units && r.chance(0.2)) {
+            size_t d = given - 1; const Axis &ax = A.ax[d]; long n = A.shape[d];
+            if (r.chance(0.5)) { half = 1; s.end.pop_back(); vend[d] = ax.x(n - 1); } else { half = 2; s.start.pop_back(); vstart[d] = ax.x(0); }
+            s.cls = half == 1 ? "start-only-last-dim" : "end-only-last-dim";
+        }
         for (RangeMatch m : {RangeMatch::Inclusive, RangeMatch::Exclusive}) {
-            // expected box
+            // expected box (alt: a start-only dimension in Exclusive mode may or may not include the last element - both readings are accepted)
+            auto make_box = [&](bool alt) {
             Box want; want.lo.resize(R); want.hi.resize(R); maybe_empty = false;
             for (size_t d = 0; d < R && !want.oob; d++) {
                 const Axis &ax = A.ax[d]; long n = A.shape[d]; Region rg;
                 if (d >= given) rg = region_unspecified(n);
                 else {
-                    double ps = s.start[d] * s.factor[d], pe = s.end[d] * s.factor[d];
-                    PairIdx pi = oracle_pair(ax, ps, pe, m);
-                    if (s.start[d] > s.end[d]) { rg.oob = true; rg.why = "start>end"; }
-                    else if (!pi.valid && s.start[d] == s.end[d]) rg = region_point(ax, ps, n);   // zero width: first element at or after the position (docs: same rules as for tags)
+                    double ps = vstart[d] * s.factor[d], pe = vend[d] * s.factor[d];
+                    RangeMatch md = (alt && half == 1 && d == given - 1) ? RangeMatch::Inclusive : m;
+                    PairIdx pi = oracle_pair(ax, ps, pe, md);
+                    if (vstart[d] > vend[d]) { rg.oob = true; rg.why = "start>end"; }
+                    else if (!pi.valid && vstart[d] == vend[d]) rg = region_point(ax, ps, n);   // zero width: first element at or after the position (docs: same rules as for tags)
                     else if (!pi.valid) { rg.oob = true; rg.why = "empty"; }
-                    else rg = region_range(ax, ps, pe, m, n);
+                    else rg = region_range(ax, ps, pe, md, n);
                 }
                 if (rg.oob) { want.oob = true; want.why = "dim" + str(d) + ":" + rg.why; }
                 want.lo[d] = rg.lo; want.hi[d] = rg.hi;
             }
+            return want; };
+            Box want = make_box(false);
             c.op(std::string("dataSlice ") + rm_name(m) + " " + s.cls + (reversed ? " reversed" : "") + " | " + sshow(s));
             bool dflt = m == RangeMatch::Exclusive && r.chance(0.3);
             Got g = retrieve([&] { return dflt ? (s.units.empty() ? util::dataSlice(A.da, s.start, s.end) : util::dataSlice(A.da, s.start, s.end, s.units)) : util::dataSlice(A.da, s.start, s.end, s.units, m); });
             if (maybe_empty && !want.oob) { if (g.threw) { c.count("unjudged:empty-region-error"); continue; } c.count("unjudged:empty-region-point"); }
             else if (maybe_empty && want.oob && want.why.find("start>end") == std::string::npos) { c.check(g.threw, std::string("C17/slice/expect-error/") + rm_name(m), [&] { return "empty region outside the data returned " + dshow(g.data) + " | " + A.describe() + sshow(s); }); continue; }
             std::string d = compare_box(A, want, g);
+            if (!d.empty() && half == 1 && m == RangeMatch::Exclusive) { Box w2 = make_box(true); if (compare_box(A, w2, g).empty()) { d.clear(); c.count("half-specified:last-element-included"); } }
+            if (half) c.count(std::string("half-specified:") + s.cls);
             std::string key = "C17/slice/" + std::string(want.oob ? (reversed ? "start-after-end" : "expect-error") : "expect-data") + "/" + rm_name(m) + "/" + s.cls;
             c.check(d.empty(), key, [&] { return d + " | " + A.describe() + sshow(s) + " mode=" + rm_name(m); });
         }
